@@ -338,10 +338,29 @@ def to_spec(v):
     if type(v).__name__ == 'User':
         return {'__user__': v.text}
     if hasattr(v, '_taskchain_instantiate_def'):
-        d = v._taskchain_instantiate_def
-        return {'__inst__': d['class'].split('.')[-1], 'args': [to_spec(x) for x in v.args],
-                'kwargs': {k: to_spec(x) for k, x in v.kwargs.items()}}
+        return definition_to_spec(v._taskchain_instantiate_def)
     return {'__user__': f'<unknown {type(v).__name__}>'}
+
+
+def definition_to_spec(d):
+    """A config definition ({'class': .., 'args': .., 'kwargs': ..}, possibly nested in lists and mappings) -> spec
+    (inverse of values.definition_of)."""
+    from .values import AUTO_SIGS
+    if isinstance(d, (list, tuple)):
+        return [definition_to_spec(x) for x in d]
+    if not isinstance(d, dict):
+        return to_spec(d)
+    if 'class' not in d:
+        return {k: definition_to_spec(x) for k, x in d.items()}
+    cls = str(d['class']).split('.')[-1]
+    args = [definition_to_spec(x) for x in d.get('args', [])]
+    kwargs = {k: definition_to_spec(x) for k, x in d.get('kwargs', {}).items()}
+    if cls in AUTO_SIGS:
+        varpos = AUTO_SIGS[cls].get('varpos')
+        return {'__auto__': cls, 'args': dict(kwargs, **({varpos: args} if varpos and args else {}))}
+    if cls == 'User':
+        return {'__user__': args[0] if args else kwargs.get('text')}
+    return {'__inst__': cls, 'args': args, 'kwargs': kwargs}
 
 
 def rel_path(p):
@@ -402,7 +421,22 @@ def cdoc(doc, mod):
 
 
 def cspec_def(spec):
-    return cspec(no_objects(definition_of(spec)))
+    return cspec(no_objects(definitions_keep_auto(spec)))
+
+
+def definitions_keep_auto(spec):
+    """Like definition_of, but an AutoParameterObject stays a VAuto value (class and the arguments its repr() keeps, as
+    values.cspec filters them): the model's `instantiate` knows plain classes and classes with a repr of their own, and
+    passes such a value through, also inside lists and mappings."""
+    if isinstance(spec, list):
+        return [definitions_keep_auto(x) for x in spec]
+    if isinstance(spec, dict):
+        if '__auto__' in spec:
+            return {'__auto__': spec['__auto__'], 'args': {k: definitions_keep_auto(v) for k, v in spec['args'].items()}}
+        if any(k in spec for k in ('__inst__', '__user__', '__reprstr__')):
+            return definition_of(spec)
+        return {k: definitions_keep_auto(v) for k, v in spec.items()}
+    return spec
 
 
 def no_objects(x):
